@@ -7,7 +7,7 @@ looking at the analyzer: relations in scope (base table | derived table | CTE, e
 import itertools
 
 BASE = {"s1.ta": ["a1", "a2", "id"], "s1.tb": ["b1", "b2", "id"], "s1.tc": ["c1", "id"]}
-KINDS = ("col", "alias", "func", "case", "cast", "arith", "window", "case3", "nested", "window2")
+KINDS = ("col", "alias", "func", "case", "cast", "arith", "window", "case3", "nested", "window2", "paren")
 
 
 class Rel:
@@ -56,6 +56,9 @@ def item_text(kind, refs, n):
         return f"case when {r0} > 0 then {r1} else {r2} end as x{n}", f"x{n}"
     if kind == "nested":
         return f"coalesce(upper({r0}), cast({r1} as int), {r2}) as x{n}", f"x{n}"
+    if kind == "paren":
+        # an operand written BEFORE a parenthesised group, and one after it
+        return f"{r0} * ({r1} + {r2}) - {r1} as x{n}", f"x{n}"
     if kind == "window2":
         return f"row_number() over (partition by {r0} order by {r1}, {r2} desc) as x{n}", f"x{n}"
     if kind == "col":
@@ -75,7 +78,7 @@ def item_text(kind, refs, n):
     raise ValueError(kind)
 
 
-NREFS = {"col": 1, "alias": 1, "cast": 1, "func": 2, "case": 2, "arith": 2, "window": 2, "case3": 3, "nested": 3, "window2": 3}
+NREFS = {"col": 1, "alias": 1, "cast": 1, "func": 2, "case": 2, "arith": 2, "window": 2, "case3": 3, "nested": 3, "window2": 3, "paren": 3}
 
 
 class Stmt:
